@@ -1106,7 +1106,7 @@ def lean_list(xs):
     return "[" + ", ".join(xs) + "]"
 
 
-def gen_lean(skels, normalises, bprobes=(), skel_ok=True, builder_ok=True, lerp_rows=(), lerp_ok=True):
+def gen_lean(skels, normalises, bprobes=(), skel_ok=True, builder_ok=True, lerp_rows=(), lerp_ok=True, run_grid_ok=True):
     rows = []
     for ni, no, _text, words in skels:
         toks = ", ".join(pyfrag.lean_tok(w) for w in words)
@@ -1117,7 +1117,10 @@ def gen_lean(skels, normalises, bprobes=(), skel_ok=True, builder_ok=True, lerp_
         brows.append('  { s := "e0", ins := [' + ", ".join(pyfrag.lean_str(x) for x in ins) + "], outs := [" + ", ".join(pyfrag.lean_str(x) for x in outs)
                      + f"],\n    ir := {lean},\n    toks := [{toks}] }}")
     b = "true" if normalises else "false"
-    body = ("theorem holds : C04_full cfg := C04_full_of_good cfg (by decide)\n#print axioms holds\n" if normalises else
+    g = "true" if run_grid_ok else "false"
+    body = ("theorem holds : C04_full cfg := C04_full_of_good cfg (by decide)\n#print axioms holds\n" if normalises and run_grid_ok else
+            "/-- the rows of a run are walked with another dt than the model integrates with (probe: scenario run specs over an XMILE file) -/\n"
+            "theorem violated : ¬ C04_full cfg := C04_witness_run_grid cfg (by decide)\n#print axioms violated\n#print axioms rows_stale_dt_witness\n" if normalises else
             "theorem violated : ¬ C04_full cfg := C04_witness_raw_keys cfg (by decide)\n#print axioms violated\n"
             "#print axioms C04_partial\n")
     skel_ob = ("/-- every probed stock equation (0..3 inflows x 0..3 outflows) is, token for token, the intended\n"
@@ -1144,7 +1147,7 @@ def gen_lean(skels, normalises, bprobes=(), skel_ok=True, builder_ok=True, lerp_
             "namespace Bptk.C04.Gen\nopen Bptk.Py in\n"
             "def skeletons : List (Nat × Nat × List Bptk.Py.Tok) := [\n" + ",\n".join(rows) + "]\n"
             "open Bptk.Py in\ndef bprobes : List BProbe := [\n" + ",\n".join(brows) + "]\n"
-            f"def cfg : Cfg := {{ memoNormalises := {b} }}\n"
+            f"def cfg : Cfg := {{ memoNormalises := {b}, xmileRunGridUsesModelDt := {g} }}\n"
             + skel_ob + bld_ob + lerp_ob + body + "end Bptk.C04.Gen\n")
 
 
@@ -1194,7 +1197,8 @@ def _run2(chk, scratch, bp):
     chk.notes["lerp_probe"] = {"calls": lerp_count, "kernel_rows": len(lerp_rows), "first_failure": lerp_fail}
     rs_fail, rs_notes = check_runspec_scenarios(bp)
     chk.notes["scenario_runspecs"] = rs_notes
-    chk.notes["cfg"]["xmileRunGridUsesModelDt"] = rs_fail is None or "rows" not in rs_fail["problem"]
+    run_grid_ok = not any(("rows (first times" in v or "the scenario's grid point is" in v) for k_, v in rs_notes.items())
+    chk.notes["cfg"]["xmileRunGridUsesModelDt"] = run_grid_ok
     for k_ in rs_notes:
         chk.case(("scenario-runspecs", k_), nontrivial=True)
     shapes_ok, shapes_detail = probe_shapes(scratch)
@@ -1209,7 +1213,7 @@ def _run2(chk, scratch, bp):
     builder_ok = not bld_bad and not bld_tok_bad
     chk.notes["builder_probe"] = {"shapes": [f"{len(i)}/{len(o)}" for i, o, *_ in bprobes], "ir_differs": [(a, b, l, p) for a, b, l, p, _ in bld_bad][:4],
                                   "text_differs": bld_tok_bad[:4], "skeleton_differs": skel_bad[:4]}
-    ok, why = chk.prove(gen_lean(skels, normalises, bprobes, skel_ok=not skel_bad, builder_ok=builder_ok, lerp_rows=lerp_rows, lerp_ok=lerp_rows_ok),
+    ok, why = chk.prove(gen_lean(skels, normalises, bprobes, skel_ok=not skel_bad, builder_ok=builder_ok, lerp_rows=lerp_rows, lerp_ok=lerp_rows_ok, run_grid_ok=run_grid_ok),
                         extra_sources=["Bptk/Core/PyFrag.lean", "Bptk/Proofs/PyFrag.lean"])
     chk.cov["trusted_base"] = [
         "Lean 4.33 kernel; axioms propext, Classical.choice, Quot.sound (audited per run via #print axioms); decide +kernel on Float literals for the drift witness only",
